@@ -170,6 +170,9 @@ def check_offline_variant(ix, rep, mon):
     attr = None
     if isinstance(t, ast.UnaryOp) and isinstance(t.op, ast.Not) and isinstance(t.operand, ast.Attribute) and ast.unparse(t.operand.value) == nodep:
         attr = t.operand.attr
+    elif isinstance(t, ast.Compare) and isinstance(t.ops[0], ast.Eq) and ast.unparse(t.comparators[0]) == '0' and isinstance(t.left, ast.Call) \
+            and getattr(t.left.func, 'id', None) == 'len' and isinstance(t.left.args[0], ast.Attribute) and ast.unparse(t.left.args[0].value) == nodep:
+        attr = t.left.args[0].attr
     if attr == want_attr(sem):
         rep.ok('R-IATABLE', f.module.rel, f.qual, slot + ':sensitivity', 'tests `not node.%s`' % attr, the_if.lineno)
     else:
